@@ -193,7 +193,8 @@ def main(out_path):
             x, _ = em.expr(e[2][1], 'V')
             gr, _ = em.expr(e[2][2], 'V')
             o1, o2 = dotted(e[2][3]), dotted(e[2][4])
-            return [(o1, 'V', f'(proxOcp {g} {x} {gr}).1'), (o2, 'V', f'(proxOcp {g} {x} {gr}).2.1')]
+            return [(o1, 'V', f'(proxOcp {g} {x} {gr}).1'), (o2, 'V', f'(proxOcp {g} {x} {gr}).2.1'),
+                    ('work_pTp', 'S', f'(proxOcp {g} {x} {gr}).2.2')]
         return None
 
     ocp_arms = []
@@ -204,10 +205,9 @@ def main(out_path):
         text = cases[n]
         # `auto [pTp, gTp] = eval_prox_impl(1, xuₖ, grad_ψₖ, work_xu, work_p);` → call + scalar
         text2 = re.sub(r'auto\s*\[\s*(\w+)\s*,\s*(\w+)\s*\]\s*=\s*eval_prox_impl\s*\(([^;]*)\)\s*;',
-                       r'eval_prox_impl(\3); real_t \1 = prox_pTp_of(work_p);', text)
+                       r'eval_prox_impl(\3); real_t \1 = work_pTp;', text)
         ss = cp.parse_statements(text2)
-        em = Emitter(lambda d: envo.get(d),
-                     scalar_fns={'prox_pTp_of': ('sqNorm', ['V'], 'S')})
+        em = Emitter(lambda d: envo.get(d))
         em.stmt_call_handler = ocp_prox_handler
         params = [('proxOcp', 'proxOcp', 'α → Vec α → Vec α → Vec α × Vec α × α')] + \
                  [(k, v[0], v[1]) for k, v in envo.items()]
